@@ -139,6 +139,38 @@ def rhpRoots : List String → String
     | none => "bad-op"
   | _ => "bad-op"
 
+/-- `rhp-saroot hashes`: the 4-lane sectorAccumulator fed by appendNode, and Go's MetaRoot
+(sector accumulator below LeavesPerSector, recursion above) -/
+def rhpSaRoot : List String → String
+  | [hs] => match hashList hs with
+    | some l =>
+      hex ((l.foldl SecAcc.appendNode SecAcc.empty).root : ByteArray) ++ " " ++ hex (goMetaRootSA l : ByteArray)
+    | none => "bad-op"
+  | _ => "bad-op"
+
+/-- one step of a feeding plan: `n<k>` = k appendNode calls, `l<k>` = one appendLeaves call with k leaves -/
+def saFeed (sa : SecAcc ByteArray) (lh : List ByteArray) : List String → Option (SecAcc ByteArray)
+  | [] => if lh.isEmpty then some sa else none
+  | tok :: rest =>
+    match (tok.drop 1).toString.toNat? with
+    | none => none
+    | some k =>
+      if k > lh.length then none
+      else if tok.startsWith "n" then saFeed ((lh.take k).foldl SecAcc.appendNode sa) (lh.drop k) rest
+      else if tok.startsWith "l" then saFeed (sa.appendLeafHashes (lh.take k)) (lh.drop k) rest
+      else none
+
+/-- `rhp-saleaves datahex plan`: feed the leaves to the 4-lane accumulator according to the plan -/
+def rhpSaLeaves : List String → String
+  | [d, plan] => match unhex d with
+    | some b =>
+      if b.size % 64 ≠ 0 then "bad-op" else
+      match saFeed SecAcc.empty (leafHashes b) (if plan = "-" then [] else plan.splitOn ",") with
+      | some sa => hex (sa.root : ByteArray)
+      | none => "bad-op"
+    | none => "bad-op"
+  | _ => "bad-op"
+
 def rhpSectorRoot : List String → String
   | [d] => match unhex d with
     | some b => if b.size % 64 ≠ 0 then "error" else hex (sectorRoot b : ByteArray)
@@ -298,6 +330,8 @@ def rhpOps : List (String × (List String → String)) := [
   ("rhp-leafpair", rhpLeafPair),
   ("rhp-roots", rhpRoots),
   ("rhp-sectorroot", rhpSectorRoot),
+  ("rhp-saroot", rhpSaRoot),
+  ("rhp-saleaves", rhpSaLeaves),
   ("rhp-sector", rhpSector),
   ("rhp-nss", rhpNss),
   ("rhp-rps", rhpRps),
